@@ -166,13 +166,26 @@ var St = Stats{}
 func RunLines(deadline time.Duration, f func(toks []string) string) {
 	sc := bufio.NewScanner(os.Stdin)
 	sc.Buffer(make([]byte, 1<<20), 1<<28)
+	hangs := 0
 	for sc.Scan() {
 		line := strings.TrimSpace(sc.Text())
 		if line == "" || strings.HasPrefix(line, "#") {
 			continue
 		}
 		toks := strings.Fields(line)
-		res := Guard(deadline, func() string { return f(toks) })
+		// an abandoned goroutine that spins keeps a core busy: after a few hangs the deadline shrinks, and after
+		// twenty the remaining ops are not executed at all (the hangs already are concrete failing inputs)
+		d := deadline
+		if hangs >= 3 && d > 3*time.Second {
+			d = 3 * time.Second
+		}
+		res := "not-run-after-20-hangs"
+		if hangs < 20 {
+			res = Guard(d, func() string { return f(toks) })
+		}
+		if res == "hang" {
+			hangs++
+		}
 		Emit("%s | %s", line, res)
 		Flush()
 	}
